@@ -143,7 +143,7 @@ def apply_op(rng, m, op):
                 # an open sweep that starts later and ends exactly at 360 degrees
                 angles = angles[angles > 1e-9]
                 angles = angles + (360.0 - angles[-1])
-            if rng.integers(0, 3) == 0:
+            if rng.integers(0, 3) == 0 and len(angles) > 2:
                 return mm.revolve(n=int(rng.integers(2, len(angles))), phi=angles, axis=axis)
             return mm.revolve(phi=angles, axis=axis)
         return mm.revolve(n=nseg + 1, phi=phi, axis=axis)
